@@ -72,7 +72,11 @@ def _prepare(spec: KaniSpec, scratch: str, repo: str = REPO) -> str:
 
 
 def run(spec: KaniSpec, harnesses: list[KaniHarness] | None = None, jobs: int = 8, keep: bool = False,
-        playback: bool = True) -> KaniResult:
+        playback: bool = True, deadline: float | None = None) -> KaniResult:
+    """`deadline` (time.time() value): the whole run, including the counterexample pass and the native
+    replay, is cut so as to end before it; what is cut is reported as undecided / no counterexample."""
+    def left(reserve=0.0):
+        return 1e9 if deadline is None else max(5.0, deadline - time.time() - reserve)
     hs = harnesses if harnesses is not None else spec.harnesses
     base = os.environ.get("VERIF_SCRATCH", tempfile.gettempdir())
     scratch = tempfile.mkdtemp(prefix="verif-kani-", dir=base)
@@ -83,7 +87,7 @@ def run(spec: KaniSpec, harnesses: list[KaniHarness] | None = None, jobs: int = 
         env["CARGO_NET_OFFLINE"] = "true"
         env["CARGO_TARGET_DIR"] = os.path.join(scratch, "target")
 
-        def invoke(hlist, with_playback):
+        def invoke(hlist, with_playback, limit):
             cmd = ["cargo", "kani", "-Z", "function-contracts", "-Z", "stubbing", "--output-format", "terse"]
             if with_playback:
                 cmd += ["-Z", "concrete-playback", "--concrete-playback=print"]
@@ -108,7 +112,7 @@ def run(spec: KaniSpec, harnesses: list[KaniHarness] | None = None, jobs: int = 
                         pass
                 timed = False
                 try:
-                    proc.wait(timeout=spec.timeout_s)
+                    proc.wait(timeout=limit)
                 except subprocess.TimeoutExpired:
                     import signal
                     timed = True
@@ -119,24 +123,36 @@ def run(spec: KaniSpec, harnesses: list[KaniHarness] | None = None, jobs: int = 
                     proc.wait()
             return cmd, open(logp, errors="replace").read(), timed
 
-        cmd, out, timed_out = invoke(hs, False)
+        # keep a third of what is left (at most 5 min) for the counterexample pass
+        limit1 = min(spec.timeout_s, left(reserve=min(300.0, left() / 3)))
+        cmd, out, timed_out = invoke(hs, False, limit1)
         res = parse(out, hs)
         build_error = ""
         if timed_out:
             for h in hs:
                 if res[h.name].status == "undecided" and not res[h.name].undecided_reason:
-                    res[h.name].undecided_reason = f"timeout after {spec.timeout_s}s"
+                    res[h.name].undecided_reason = f"timeout after {int(limit1)}s"
         elif not any(r.status != "undecided" or r.raw for r in res.values()):
             build_error = out[-6000:]
         failed = [h for h in hs if res[h.name].status == "failed"]
-        if playback and failed and not getattr(spec, "no_playback", False):
-            _, out2, _ = invoke(failed, True)
+        if playback and failed and not getattr(spec, "no_playback", False) and left() > 30:
+            # cheapest failed harnesses first; one counterexample is enough when time is short
+            failed.sort(key=lambda h: res[h.name].time_s or 0.0)
+            if deadline is not None:
+                keep_n, acc = 0, 0.0
+                for h in failed:
+                    acc += 1.3 * (res[h.name].time_s or 0.0) + 15
+                    if keep_n and acc > left(reserve=60):
+                        break
+                    keep_n += 1
+                failed = failed[:max(1, keep_n)]
+            _, out2, _ = invoke(failed, True, min(spec.timeout_s, left(reserve=45)))
             res2 = parse(out2, failed)
             for h in failed:
                 if res2[h.name].playback:
                     res[h.name].playback = res2[h.name].playback
             try:
-                _native_replay(dst, env, spec, [res[h.name] for h in failed if res[h.name].playback])
+                _native_replay(dst, env, spec, [res[h.name] for h in failed if res[h.name].playback], min(300.0, left(reserve=5)))
             except Exception as e:  # replay is best effort; the violation stands on the verifier's verdict
                 for h in failed:
                     res[h.name].replay_result = f"(native replay not run: {e})"
@@ -146,7 +162,7 @@ def run(spec: KaniSpec, harnesses: list[KaniHarness] | None = None, jobs: int = 
             shutil.rmtree(scratch, ignore_errors=True)
 
 
-def _native_replay(dst: str, env: dict, spec: KaniSpec, failed: list) -> None:
+def _native_replay(dst: str, env: dict, spec: KaniSpec, failed: list, limit: float = 300.0) -> None:
     """Replay each concrete counterexample against the real code: the playback test
     Kani printed is inserted into the harness module of the scratch copy and run with
     `cargo kani playback` (a native `cargo test` build; kani::any() returns the
@@ -179,7 +195,7 @@ def _native_replay(dst: str, env: dict, spec: KaniSpec, failed: list) -> None:
     proc = subprocess.Popen(["cargo", "kani", "playback", "-Z", "concrete-playback", "--", "kani_concrete_playback"],
                             cwd=dst, stdout=subprocess.PIPE, stderr=subprocess.STDOUT, text=True, env=env2, start_new_session=True)
     try:
-        out, _ = proc.communicate(timeout=300)
+        out, _ = proc.communicate(timeout=limit)
     except subprocess.TimeoutExpired:
         import signal
         try:
